@@ -243,7 +243,7 @@ def ghost_mask(tmpl, what):
             k = i
             d = 0
             while k < n:
-                if d == 0 and tx[k] == '{':
+                if d == 0 and tx[k] in ('{', ';'):
                     break
                 if tx[k] in lexer.OPEN:
                     d += 1
